@@ -4,7 +4,8 @@
 //! generators), every pairing of P = a·G1, Q = b·G2 must equal g^(ab mod r), the exponent computed with BigUint
 //! arithmetic and the power with a plain square-and-multiply loop over target-field multiplication (never the
 //! cyclotomic paths of `PairingOutput`).
-use ark_ec::pairing::{MillerLoopOutput, Pairing, PairingOutput};
+use ark_ec::pairing::{prepare_g1, prepare_g2, MillerLoopOutput, Pairing, PairingOutput};
+use ark_serialize::{CanonicalDeserialize, CanonicalSerialize, Compress, Valid, Validate};
 use ark_ec::{AdditiveGroup, AffineRepr, CurveGroup, PrimeGroup};
 use ark_ff::{Field, One, PrimeField, Zero};
 use num_bigint::BigUint;
@@ -28,12 +29,19 @@ struct Ctx<E: Pairing> {
     g2_identity: bool,
     /// longest list of the multi-pairing relation
     max_len: u64,
+    /// non-identity points of the order-r groups with affine x-coordinate 0 (computed once; empty for most engines)
+    x0_g1: OnceLock<Vec<E::G1Affine>>,
+    x0_g2: OnceLock<Vec<E::G2Affine>>,
+    /// per-engine class names for the evidence file
+    cls_x0: [&'static str; 3],
 }
 
 impl<E: Pairing> Ctx<E> {
     fn new(name: &'static str, g2_identity: bool, max_len: u64) -> Self {
         let m = E::ScalarField::MODULUS;
-        Ctx { name, fr: FieldCtx::new(&format!("{}.Fr", name), m.as_ref()), base: OnceLock::new(), g2_identity, max_len }
+        let leak = |x: String| -> &'static str { Box::leak(x.into_boxed_str()) };
+        let cls_x0 = [leak(format!("x=0 point in G1: {}", name)), leak(format!("x=0 point in G2: {}", name)), leak(format!("no x=0 point in G1/G2: {}", name))];
+        Ctx { name, fr: FieldCtx::new(&format!("{}.Fr", name), m.as_ref()), base: OnceLock::new(), g2_identity, max_len, x0_g1: OnceLock::new(), x0_g2: OnceLock::new(), cls_x0 }
     }
     fn base(&self) -> Result<E::TargetField, Fail> {
         if let Some(b) = self.base.get() {
@@ -170,11 +178,11 @@ fn multi<E: Pairing>(ps: &[E::G1], qs: &[E::G2], form: u64, mask: u64, api: u64)
             let mut a = Vec::new();
             let mut b = Vec::new();
             for (i, (p, q)) in ps.iter().zip(qs).enumerate() {
-                let r1 = match in1::<E>(*p, 2 + ((mask >> (2 * i)) & 1))? {
+                let r1 = match in1::<E>(*p, 2 + ((mask >> ((2 * i) % 64)) & 1))? {
                     In1::R(r) => r,
                     _ => unreachable!(),
                 };
-                let r2 = match in2::<E>(*q, 2 + ((mask >> (2 * i + 1)) & 1))? {
+                let r2 = match in2::<E>(*q, 2 + ((mask >> ((2 * i + 1) % 64)) & 1))? {
                     In2::R(r) => r,
                     _ => unreachable!(),
                 };
@@ -505,6 +513,357 @@ fn grouplaws<E: Pairing>(c: &Ctx<E>, t: &mut Tape<'_>, o: &mut Obs) -> R {
 }
 
 // ---------------------------------------------------------------------------------------------------------------
+// API spellings that the `Pairing` trait bounds do not expose (conversions from references, `is_zero` of prepared
+// values, lists passed as slices) - implemented per engine by `spell!`
+// ---------------------------------------------------------------------------------------------------------------
+
+trait Spell: Pairing {
+    fn g1p_ref_affine(p: &Self::G1Affine) -> Self::G1Prepared;
+    fn g1p_ref_proj(p: &Self::G1) -> Self::G1Prepared;
+    fn g2p_ref_affine(q: &Self::G2Affine) -> Self::G2Prepared;
+    fn g2p_ref_proj(q: &Self::G2) -> Self::G2Prepared;
+    /// `is_zero()` of the prepared values, where the model has it
+    fn g1p_is_zero(p: &Self::G1Prepared) -> Option<bool>;
+    fn g2p_is_zero(q: &Self::G2Prepared) -> Option<bool>;
+    /// lists passed as slices: the items are references
+    fn multi_pairing_slices_affine(ps: &[Self::G1Affine], qs: &[Self::G2Affine]) -> PairingOutput<Self>;
+    fn multi_pairing_slices_proj(ps: &[Self::G1], qs: &[Self::G2]) -> PairingOutput<Self>;
+    fn multi_miller_loop_slices_mixed(ps: &[Self::G1], qs: &[Self::G2Affine]) -> MillerLoopOutput<Self>;
+    /// the points (0, y) of the curve of G1 / G2 that are non-identity elements of the order-r group (empty for most curves)
+    fn g1_x0() -> Vec<Self::G1Affine>;
+    fn g2_x0() -> Vec<Self::G2Affine>;
+}
+
+macro_rules! spell {
+    ($e:ty, $z1:expr, $z2:expr) => {
+        impl Spell for $e {
+            fn g1p_ref_affine(p: &Self::G1Affine) -> Self::G1Prepared {
+                <<$e as Pairing>::G1Prepared>::from(p)
+            }
+            fn g1p_ref_proj(p: &Self::G1) -> Self::G1Prepared {
+                <<$e as Pairing>::G1Prepared>::from(p)
+            }
+            fn g2p_ref_affine(q: &Self::G2Affine) -> Self::G2Prepared {
+                <<$e as Pairing>::G2Prepared>::from(q)
+            }
+            fn g2p_ref_proj(q: &Self::G2) -> Self::G2Prepared {
+                <<$e as Pairing>::G2Prepared>::from(q)
+            }
+            fn g1p_is_zero(p: &Self::G1Prepared) -> Option<bool> {
+                let f: fn(&<$e as Pairing>::G1Prepared) -> Option<bool> = $z1;
+                f(p)
+            }
+            fn g2p_is_zero(q: &Self::G2Prepared) -> Option<bool> {
+                let f: fn(&<$e as Pairing>::G2Prepared) -> Option<bool> = $z2;
+                f(q)
+            }
+            fn multi_pairing_slices_affine(ps: &[Self::G1Affine], qs: &[Self::G2Affine]) -> PairingOutput<Self> {
+                Self::multi_pairing(ps, qs)
+            }
+            fn multi_pairing_slices_proj(ps: &[Self::G1], qs: &[Self::G2]) -> PairingOutput<Self> {
+                Self::multi_pairing(ps.iter(), qs.iter())
+            }
+            fn multi_miller_loop_slices_mixed(ps: &[Self::G1], qs: &[Self::G2Affine]) -> MillerLoopOutput<Self> {
+                Self::multi_miller_loop(ps, qs.iter())
+            }
+            fn g1_x0() -> Vec<Self::G1Affine> {
+                let mut v = Vec::new();
+                for greatest in [false, true] {
+                    let zero = <<<$e as Pairing>::G1Affine as AffineRepr>::BaseField as Zero>::zero();
+                    if let Some(p) = <<$e as Pairing>::G1Affine>::get_point_from_x_unchecked(zero, greatest) {
+                        if p.is_on_curve() && !p.is_zero() && p.mul_bigint(<<$e as Pairing>::ScalarField as PrimeField>::MODULUS).is_zero() && !v.contains(&p) {
+                            v.push(p);
+                        }
+                    }
+                }
+                v
+            }
+            fn g2_x0() -> Vec<Self::G2Affine> {
+                let mut v = Vec::new();
+                for greatest in [false, true] {
+                    let zero = <<<$e as Pairing>::G2Affine as AffineRepr>::BaseField as Zero>::zero();
+                    if let Some(p) = <<$e as Pairing>::G2Affine>::get_point_from_x_unchecked(zero, greatest) {
+                        if p.is_on_curve() && !p.is_zero() && p.mul_bigint(<<$e as Pairing>::ScalarField as PrimeField>::MODULUS).is_zero() && !v.contains(&p) {
+                            v.push(p);
+                        }
+                    }
+                }
+                v
+            }
+        }
+    };
+}
+
+spell!(ark_bls12_381::Bls12_381, |p| Some(p.is_zero()), |q| Some(q.is_zero()));
+spell!(ark_test_curves::bls12_381::Bls12_381, |p| Some(p.is_zero()), |q| Some(q.is_zero()));
+spell!(ark_bls12_377::Bls12_377, |p| Some(p.is_zero()), |q| Some(q.is_zero()));
+spell!(ark_bn254::Bn254, |p| Some(p.is_zero()), |q| Some(q.is_zero()));
+spell!(ark_bw6_761::BW6_761, |p| Some(p.is_zero()), |q| Some(q.is_zero()));
+spell!(ark_bw6_767::BW6_767, |p| Some(p.is_zero()), |q| Some(q.is_zero()));
+spell!(ark_cp6_782::CP6_782, |p| Some(p.is_zero()), |q| Some(q.is_zero()));
+spell!(ark_mnt4_298::MNT4_298, |_| None, |_| None);
+spell!(ark_mnt4_753::MNT4_753, |_| None, |_| None);
+spell!(ark_mnt6_298::MNT6_298, |_| None, |_| None);
+spell!(ark_mnt6_753::MNT6_753, |_| None, |_| None);
+
+fn roundtrip<T: CanonicalSerialize + CanonicalDeserialize>(x: &T, compress: Compress, what: &str) -> Result<T, Fail> {
+    let mut bytes = Vec::new();
+    if let Err(e) = x.serialize_with_mode(&mut bytes, compress) {
+        return Err(Fail { sig: format!("{}.serialize", what), msg: format!("{:?}", e) });
+    }
+    if bytes.len() != x.serialized_size(compress) {
+        return Err(Fail { sig: format!("{}.serialized_size", what), msg: format!("wrote {} bytes, serialized_size says {}", bytes.len(), x.serialized_size(compress)) });
+    }
+    match T::deserialize_with_mode(&bytes[..], compress, Validate::Yes) {
+        Ok(y) => Ok(y),
+        Err(e) => Err(Fail { sig: format!("{}.deserialize", what), msg: format!("{:?}", e) }),
+    }
+}
+
+const SPELLS: [&str; 6] = [
+    "Prepared::from(&affine)",
+    "Prepared::from(&projective)",
+    "prepare_g1/prepare_g2(affine)",
+    "prepare_g1/prepare_g2(projective)",
+    "prepared -> serialize -> deserialize (compressed)",
+    "prepared -> serialize -> deserialize (uncompressed)",
+];
+
+/// The same pairing through the remaining public spellings: prepared values made from references, by `prepare_g1` /
+/// `prepare_g2`, or read back from their canonical serialization; lists passed as slices (items are references);
+/// `is_zero()` of prepared values; `PairingOutput::generator()`, `Valid::check` of outputs; the `&mut` operand forms and
+/// the owned `Sum` of `PairingOutput`.  Oracle: g^(ab) / g^(sum a_i b_i) by plain square-and-multiply, as everywhere.
+fn spellings<E: Spell>(c: &Ctx<E>, t: &mut Tape<'_>, o: &mut Obs) -> R {
+    let (a, av, ac) = scalar(c, t, false);
+    let (b, bv, bc) = scalar(c, t, true);
+    let (s1, s2) = (t.below(6), t.below(6));
+    let api = t.below(2);
+    let k = 1 + t.below(1 << 20);
+    o.show(|| format!("{}: {}(P via {}, Q via {}) and slice lists, P = a*G1, Q = b*G2, a={} [{}] b={} [{}] k={}", c.name, APIS[api as usize], SPELLS[s1 as usize], SPELLS[s2 as usize], hx(&av), ac, hx(&bv), bc, k));
+    let one = BigUint::one();
+    o.nt(!av.is_zero() && !bv.is_zero() && (av > one || bv > one));
+    o.class_if(av.is_zero() || bv.is_zero(), "identity-operand");
+    o.class_if(s1 <= 1 || s2 <= 1, "spell:from-reference");
+    o.class_if((2..=3).contains(&s1) || (2..=3).contains(&s2), "spell:prepare_g1/g2");
+    o.class_if(s1 >= 4 || s2 >= 4, "spell:serialized-prepared");
+    o.evals(12);
+    let r = &c.fr.p;
+    let p = E::G1::generator() * a;
+    let q = E::G2::generator() * b;
+    let (pa, qa) = (p.into_affine(), q.into_affine());
+    let g = c.base()?;
+    // single pairing through the chosen spellings
+    let p1: E::G1Prepared = match s1 {
+        0 => no_panic("G1Prepared::from(&affine)", || E::g1p_ref_affine(&pa))?,
+        1 => no_panic("G1Prepared::from(&projective)", || E::g1p_ref_proj(&p))?,
+        2 => no_panic("prepare_g1(affine)", || prepare_g1::<E>(pa))?,
+        3 => no_panic("prepare_g1(projective)", || prepare_g1::<E>(p))?,
+        4 => roundtrip(&E::G1Prepared::from(pa), Compress::Yes, "G1Prepared")?,
+        _ => roundtrip(&E::G1Prepared::from(p), Compress::No, "G1Prepared")?,
+    };
+    let q1: E::G2Prepared = match s2 {
+        0 => no_panic("G2Prepared::from(&affine)", || E::g2p_ref_affine(&qa))?,
+        1 => no_panic("G2Prepared::from(&projective)", || E::g2p_ref_proj(&q))?,
+        2 => no_panic("prepare_g2(affine)", || prepare_g2::<E>(qa))?,
+        3 => no_panic("prepare_g2(projective)", || prepare_g2::<E>(q))?,
+        4 => roundtrip(&E::G2Prepared::from(qa), Compress::Yes, "G2Prepared")?,
+        _ => roundtrip(&E::G2Prepared::from(q), Compress::No, "G2Prepared")?,
+    };
+    if let Some(z) = E::g1p_is_zero(&p1) {
+        ensure!(z == av.is_zero(), "prepared.is_zero.g1", "G1Prepared::is_zero() = {} for a = {}", z, hx(&av));
+    }
+    if let Some(z) = E::g2p_is_zero(&q1) {
+        ensure!(z == bv.is_zero(), "prepared.is_zero.g2", "G2Prepared::is_zero() = {} for b = {}", z, hx(&bv));
+    }
+    let want = plain_pow(&g, &((&av * &bv) % r));
+    let got = call::<E, _, _>(api, p1, q1)?;
+    ensure!(got.0 == want, "spelling.single", "{}(P via {}, Q via {}) != g^(ab) for a={} b={}", APIS[api as usize], SPELLS[s1 as usize], SPELLS[s2 as usize], hx(&av), hx(&bv));
+    ensure!(got.check().is_ok(), "output.check", "Valid::check rejects a pairing output (a={} b={})", hx(&av), hx(&bv));
+    // lists as slices: (P,Q), (k*G1, Q), (P, G2)  ->  g^(ab + kb + a)
+    let kg = E::G1::generator() * E::ScalarField::from(k);
+    let e3 = (&av * &bv + BigUint::from(k) * &bv + &av) % r;
+    let want3 = plain_pow(&g, &e3);
+    let ps = [p, kg, p];
+    let qs = [q, q, E::G2::generator()];
+    let psa: Vec<E::G1Affine> = ps.iter().map(|x| x.into_affine()).collect();
+    let qsa: Vec<E::G2Affine> = qs.iter().map(|x| x.into_affine()).collect();
+    let m1 = no_panic("multi_pairing(&[affine])", || E::multi_pairing_slices_affine(&psa, &qsa))?;
+    ensure!(m1.0 == want3, "spelling.slices.affine", "multi_pairing(&[G1Affine], &[G2Affine]) != g^(ab+kb+a) for a={} b={} k={}", hx(&av), hx(&bv), k);
+    let m2 = no_panic("multi_pairing(iter of &projective)", || E::multi_pairing_slices_proj(&ps, &qs))?;
+    ensure!(m2.0 == want3, "spelling.slices.projective", "multi_pairing(ps.iter(), qs.iter()) != g^(ab+kb+a) for a={} b={} k={}", hx(&av), hx(&bv), k);
+    let m3 = fe::<E>(no_panic("multi_miller_loop(&[projective], iter of &affine)", || E::multi_miller_loop_slices_mixed(&ps, &qsa))?)?;
+    ensure!(m3.0 == want3, "spelling.slices.mixed", "final_exponentiation(multi_miller_loop(&[G1], qs.iter())) != g^(ab+kb+a) for a={} b={} k={}", hx(&av), hx(&bv), k);
+    // the generator of the target group is e(G1, G2)
+    if t.below(8) == 0 {
+        let gen = no_panic("PairingOutput::generator", || <PairingOutput<E> as PrimeGroup>::generator())?;
+        ensure!(gen.0 == g && !gen.is_zero(), "output.generator", "PairingOutput::generator() is not e(G1, G2) / is the identity");
+    }
+    // remaining operand forms of the target group, against field multiplication
+    let (x, y) = (got, m1);
+    let mut ym = y;
+    let w = x.0 * y.0;
+    ensure!((x + &mut ym).0 == w, "add.mutref", "x + &mut y");
+    let mut z = x;
+    z += &mut ym;
+    ensure!(z.0 == w, "add_assign.mutref", "x += &mut y");
+    let back = z - &mut ym;
+    ensure!(back.0 == x.0, "sub.mutref", "(x + y) - &mut y != x");
+    let mut z2 = z;
+    z2 -= &mut ym;
+    ensure!(z2.0 == x.0, "sub_assign.mutref", "(x + y) -= &mut y != x");
+    let s: PairingOutput<E> = vec![x, y, y].into_iter().sum();
+    ensure!(s.0 == x.0 * y.0 * y.0, "sum.owned", "into_iter().sum()");
+    Ok(())
+}
+
+/// Group elements with a zero affine coordinate.  On curves with cofactor one and a square coefficient b (the MNT G1
+/// groups) the points (0, +-sqrt b) are ordinary elements of G1; on the j = 0 curves they are 3-torsion and outside the
+/// order-r group, and points with y = 0 have order 2, so they never lie in a group of odd prime order.  The generator
+/// asks every engine for the points with x = 0 of both curves (`get_point_from_x_unchecked(0, .)`), keeps those that
+/// are on the curve, non-identity and killed by r, and uses them as P0 / Q0.  Their discrete logarithms are unknown,
+/// so the oracle is relative to pairings of *moved* points (k*P0, P0 + P', whose coordinates are generic):
+///   e(P0, Q0) != 1 (non-degenerate: P0, Q0 are non-identity elements of the cyclic groups of prime order r),
+///   e(k*P0, l*Q0) = e(P0, Q0)^(kl),   e(P0, l*Q0)^k = e(k*P0, Q0)^l,
+///   e(P0 + P', Q0) = e(P0, Q0) e(P', Q0),   e(P0, Q0 + Q') = e(P0, Q0) e(P0, Q'),
+///   multi_pairing[(P0,Q0),(P',Q0)] = e(P0 + P', Q0),   multi_pairing[(P0,Q0),(P',Q')] = e(P0,Q0) e(P',Q'),   output^r = 1.
+/// When an engine has no such point the other slot uses a*G1 / b*G2 with non-zero edge scalars; when it has none in
+/// either group the case is empty (class "no x=0 point").
+fn zero_coordinate<E: Spell>(c: &Ctx<E>, t: &mut Tape<'_>, o: &mut Obs) -> R {
+    let s1 = c.x0_g1.get_or_init(|| E::g1_x0());
+    let s2 = c.x0_g2.get_or_init(|| E::g2_x0());
+    if s1.is_empty() && s2.is_empty() {
+        o.class(c.cls_x0[2]);
+        o.show(|| format!("{}: neither curve has a point with x = 0 in its order-r group", c.name));
+        return Ok(());
+    }
+    let slot = if !s1.is_empty() && !s2.is_empty() { t.below(3) } else if !s1.is_empty() { 0 } else { 1 };
+    let r = &c.fr.p;
+    let nz = |v: BigUint| if v.is_zero() { BigUint::one() } else { v };
+    let (_, av, _) = scalar(c, t, false);
+    let (_, bv, _) = scalar(c, t, true);
+    let (av, bv) = (nz(av), nz(bv));
+    let (_, a2, _) = scalar(c, t, false);
+    let (_, b2, _) = scalar(c, t, true);
+    let k = 2 + t.below(1 << 16);
+    let l = match t.weighted(&[2, 1]) {
+        0 => BigUint::from(2 + t.below(1 << 16)),
+        _ => nz(scalar(c, t, true).1),
+    };
+    let i1 = t.idx(s1.len().max(1));
+    let i2 = t.idx(s2.len().max(1));
+    let forms = [t.below(4), t.below(4), t.below(4), t.below(4)];
+    let api = t.below(2);
+    let lf = t.below(3);
+    let p0: E::G1 = if slot != 1 { s1[i1].into() } else { E::G1::generator() * E::ScalarField::from(av.clone()) };
+    let q0: E::G2 = if slot != 0 { s2[i2].into() } else { E::G2::generator() * E::ScalarField::from(bv.clone()) };
+    o.show(|| {
+        format!(
+            "{}: P0 = {}, Q0 = {}, k={} l={} P'={}*G1 Q'={}*G2 via {}",
+            c.name,
+            if slot != 1 { format!("{}", p0.into_affine()) } else { format!("{}*G1", hx(&av)) },
+            if slot != 0 { format!("{}", q0.into_affine()) } else { format!("{}*G2", hx(&bv)) },
+            k,
+            hx(&l),
+            hx(&a2),
+            hx(&b2),
+            APIS[api as usize]
+        )
+    });
+    o.nt(true);
+    o.class_if(slot != 1, c.cls_x0[0]);
+    o.class_if(slot != 0, c.cls_x0[1]);
+    o.class_if(a2.is_zero() || b2.is_zero(), "identity-operand");
+    o.evals(9);
+    let ks = E::ScalarField::from(k);
+    let ls = E::ScalarField::from(l.clone());
+    let e0 = pair::<E>(p0, q0, forms[0], forms[1], api)?;
+    ensure!(!e0.0.is_one(), "zero-coordinate.nondegenerate", "e(P0, Q0) is the identity for non-identity P0 = {}, Q0 = {}", p0.into_affine(), q0.into_affine());
+    ensure!(plain_pow(&e0.0, r).is_one(), "order", "e(P0, Q0)^r != 1");
+    let e1 = pair::<E>(p0 * ks, q0 * ls, forms[2], forms[3], 1 - api)?;
+    ensure!(e1.0 == plain_pow(&e0.0, &((BigUint::from(k) * &l) % r)), "zero-coordinate.bilinear", "e(k*P0, l*Q0) != e(P0, Q0)^(kl) for k={} l={}", k, hx(&l));
+    let e2 = pair::<E>(p0, q0 * ls, forms[1], forms[2], api)?;
+    let e3 = pair::<E>(p0 * ks, q0, forms[3], forms[0], api)?;
+    ensure!(plain_pow(&e2.0, &BigUint::from(k)) == plain_pow(&e3.0, &l), "zero-coordinate.scalars", "e(P0, l*Q0)^k != e(k*P0, Q0)^l for k={} l={}", k, hx(&l));
+    let pp = E::G1::generator() * E::ScalarField::from(a2.clone());
+    let qq = E::G2::generator() * E::ScalarField::from(b2.clone());
+    let e_pp_q0 = pair::<E>(pp, q0, forms[0], forms[2], api)?;
+    let e_sum1 = pair::<E>(p0 + pp, q0, forms[1], forms[3], api)?;
+    ensure!(e_sum1.0 == e0.0 * e_pp_q0.0, "zero-coordinate.additive.g1", "e(P0 + P', Q0) != e(P0, Q0) e(P', Q0) for P' = {}*G1", hx(&a2));
+    let e_p0_qq = pair::<E>(p0, qq, forms[2], forms[0], api)?;
+    let e_sum2 = pair::<E>(p0, q0 + qq, forms[3], forms[1], api)?;
+    ensure!(e_sum2.0 == e0.0 * e_p0_qq.0, "zero-coordinate.additive.g2", "e(P0, Q0 + Q') != e(P0, Q0) e(P0, Q') for Q' = {}*G2", hx(&b2));
+    let m1 = multi::<E>(&[p0, pp], &[q0, q0], lf, k, api)?;
+    ensure!(m1.0 == e_sum1.0, "zero-coordinate.multi.sum", "multi_pairing[(P0,Q0),(P',Q0)] != e(P0 + P', Q0)");
+    let g = c.base()?;
+    let m2 = multi::<E>(&[pp, p0, pp], &[qq, q0, q0], (lf + 1) % 3, k >> 3, 1 - api)?;
+    let want2 = plain_pow(&g, &((&a2 * &b2) % r)) * e_sum1.0;
+    ensure!(m2.0 == want2, "zero-coordinate.multi.value", "multi_pairing[(P',Q'),(P0,Q0),(P',Q0)] != g^(a'b') e(P0 + P', Q0)");
+    Ok(())
+}
+
+/// Long lists: 10..=40 pairs (the chunked Miller loops of BLS12/BN/BW6 take 3..=10 chunks of 4), entries k_i*G1, l_i*G2
+/// with small multipliers of two pool scalars, the generator or the identity.  Oracle: g^(sum a_i b_i); the two entry
+/// points over independently chosen list forms agree; the list split at an arbitrary position multiplies.
+fn multi_long<E: Pairing>(c: &Ctx<E>, lens: &[u64], t: &mut Tape<'_>, o: &mut Obs) -> R {
+    let n = t.pick(lens) as usize;
+    let r = &c.fr.p;
+    let (_, a0, _) = scalar(c, t, false);
+    let (_, b0, _) = scalar(c, t, true);
+    let id_w = if c.g2_identity { 1 } else { 0 };
+    let mut ks1 = Vec::new();
+    let mut ks2 = Vec::new();
+    for _ in 0..n {
+        let ka = match t.weighted(&[6, 2, 1]) {
+            0 => (&a0 * BigUint::from(1 + t.below(7))) % r,
+            1 => BigUint::from(1 + t.below(1 << 16)),
+            _ => BigUint::zero(),
+        };
+        let kb = match t.weighted(&[6, 2, id_w]) {
+            0 => (&b0 * BigUint::from(1 + t.below(7))) % r,
+            1 => BigUint::from(1 + t.below(1 << 16)),
+            _ => BigUint::zero(),
+        };
+        ks1.push(ka);
+        ks2.push(if kb.is_zero() && !c.g2_identity { BigUint::one() } else { kb });
+    }
+    let (form_a, form_b) = (t.below(3), t.below(3));
+    let mask = t.u64();
+    let api = t.below(2);
+    let cut = t.below(n as u64 + 1) as usize;
+    let n_id = ks1.iter().zip(&ks2).filter(|(a, b)| a.is_zero() || b.is_zero()).count();
+    o.show(|| format!("{}: {} pairs ({} with an identity), a0={} b0={}, {} over {}, split at {}", c.name, n, n_id, hx_short(&a0), hx_short(&b0), if api == 0 { "multi_pairing" } else { "fe(multi_miller_loop)" }, LIST_FORMS[form_a as usize], cut));
+    o.nt(true);
+    o.class(match n {
+        0..=12 => "len-10..12",
+        13..=16 => "len-13..16",
+        17..=32 => "len-17..32",
+        _ => "len>=33",
+    });
+    o.class_if(n_id > 0, "list-with-identity");
+    o.class_if((n - n_id) % 4 == 0, "live-pairs-multiple-of-4");
+    o.class_if((n - n_id) % 4 == 1, "live-pairs=1-mod-4");
+    o.evals(4);
+    let ps: Vec<E::G1> = ks1.iter().enumerate().map(|(i, k)| point::<E::G1>(k, i)).collect();
+    let qs: Vec<E::G2> = ks2.iter().enumerate().map(|(i, k)| point::<E::G2>(k, i + 1)).collect();
+    let g = c.base()?;
+    let mut exp = BigUint::zero();
+    for (a, b) in ks1.iter().zip(&ks2) {
+        exp = (exp + a * b) % r;
+    }
+    let want = plain_pow(&g, &exp);
+    // prepared lists use one mask bit pair per entry (the mask has 64 bits: entries >= 32 reuse the pattern)
+    let got = multi::<E>(&ps, &qs, form_a, mask, api)?;
+    ensure!(got.0 == want, "multi-long.value", "multi-pairing of {} pairs != g^(sum a_i b_i) ({} with an identity)", n, n_id);
+    let got2 = multi::<E>(&ps, &qs, form_b, mask >> 7, 1 - api)?;
+    ensure!(got2 == got, "multi-long.forms", "multi_pairing and final_exponentiation(multi_miller_loop) disagree on {} pairs ({} / {})", n, LIST_FORMS[form_a as usize], LIST_FORMS[form_b as usize]);
+    let left = multi::<E>(&ps[..cut], &qs[..cut], form_b, mask >> 3, api)?;
+    let right = multi::<E>(&ps[cut..], &qs[cut..], form_a, mask >> 5, api)?;
+    ensure!(left.0 * right.0 == got.0, "multi-long.split", "multi-pairing of {} pairs != product of the multi-pairings of the first {} and the remaining pairs", n, cut);
+    ensure!(plain_pow(&got.0, r).is_one(), "order", "multi-pairing output^r != 1");
+    Ok(())
+}
+
+// ---------------------------------------------------------------------------------------------------------------
 // registration
 // ---------------------------------------------------------------------------------------------------------------
 
@@ -520,7 +879,7 @@ enum Speed {
     VerySlow,
 }
 
-fn engine<E: Pairing>(out: &mut Vec<Rel>, name: &'static str, tier: Tier, speed: Speed, g2_identity: bool) {
+fn engine<E: Spell>(out: &mut Vec<Rel>, name: &'static str, tier: Tier, speed: Speed, g2_identity: bool) {
     let max_len = if speed == Speed::VerySlow { tier.pick(3, 5) } else { 9 };
     let c = Arc::new(Ctx::<E>::new(name, g2_identity, max_len));
     let n = c.fr.n;
@@ -555,6 +914,24 @@ fn engine<E: Pairing>(out: &mut Vec<Rel>, name: &'static str, tier: Tier, speed:
     }
     let cc = c.clone();
     out.push(Rel::new(format!("grouplaws/{}", name), q([300, 100, 60, 40]), 2 * sw + 4, move |t, o| grouplaws::<E>(&cc, t, o)).shrink_iters(200));
+    let cc = c.clone();
+    out.push(Rel::new(format!("spellings/{}", name), q([60, 30, 10, 3]), 2 * sw + 8, move |t, o| spellings::<E>(&cc, t, o)).shrink_iters(60));
+    let cc = c.clone();
+    out.push(Rel::new(format!("zero-coordinate/{}", name), q([40, 20, 8, 2]), 5 * sw + 16, move |t, o| zero_coordinate::<E>(&cc, t, o)).shrink_iters(40));
+    // long lists: 10..=40 pairs for the fast and medium engines, 10..=17 for the 753-bit MNT curves, CP6-782 only in the thorough tier
+    let lens: &'static [u64] = match speed {
+        Speed::Fast | Speed::Medium => &[10, 11, 12, 13, 16, 17, 20, 32, 33, 40],
+        Speed::Slow => &[10, 13, 17],
+        Speed::VerySlow => &[10],
+    };
+    let n_long = match speed {
+        Speed::VerySlow => tier.pick(0, 2),
+        _ => q([24, 12, 3, 0]),
+    };
+    if n_long > 0 {
+        let cc = c.clone();
+        out.push(Rel::new(format!("multi-long/{}", name), n_long, 2 * sw + 4 * 40 + 16, move |t, o| multi_long::<E>(&cc, lens, t, o)).shrink_iters(40));
+    }
 }
 
 fn relations(tier: Tier) -> Vec<Rel> {
@@ -580,7 +957,7 @@ fn relations(tier: Tier) -> Vec<Rel> {
 fn main() {
     vh_core::engine::main(PropSpec {
         id: "C06",
-        rule: "Points are P = a*G1, Q = b*G2 with edge-biased scalars a, b in [0, r) (0, 1, 2, r-1, near r, (r±1)/2, 2^k(±1), edge limbs, small, uniform) plus explicit identity representations (affine identity, projective zero(), X-X, prepared from either), passed as affine, projective or prepared (from affine / from projective) values through pairing, miller_loop+final_exponentiation, multi_pairing and multi_miller_loop+final_exponentiation; lists have 0..=9 equal-length entries drawn from a pool of three points per group, the generator and the identity (so repeats and identities at arbitrary positions are frequent). Oracle: g = e(G1,G2) != 1 and every output equals g^(sum a_i*b_i mod r) computed by plain square-and-multiply in the target field, outputs agree across entry points and input forms, the multi-pairing equals the product of the individual pairings, output^r = 1, PairingOutput +,-,neg,zero,double equal field multiplication / inversion. A case is non-trivial when both points are non-identity and (a,b) is outside {0,1}^2, or the list has length >= 2 (group laws: both exponents outside {0,1}); distinct = distinct decoded choice sequences.",
+        rule: "Points are P = a*G1, Q = b*G2 with edge-biased scalars a, b in [0, r) (0, 1, 2, r-1, near r, (r±1)/2, 2^k(±1), edge limbs, small, uniform) plus explicit identity representations (affine identity, projective zero(), X-X, prepared from either), passed as affine, projective or prepared (from affine / from projective) values through pairing, miller_loop+final_exponentiation, multi_pairing and multi_miller_loop+final_exponentiation; lists have 0..=9 equal-length entries drawn from a pool of three points per group, the generator and the identity (so repeats and identities at arbitrary positions are frequent). Relation multi-long/* uses lists of 10..=40 pairs (10..=17 for the 753-bit MNT engines; CP6-782 only in the thorough tier) with entries k_i*a0*G1, l_i*b0*G2 (k_i, l_i in 1..=7), small multiples of the generators or the identity, and additionally checks that a list split at an arbitrary position multiplies. Relation zero-coordinate/* uses the group elements with affine x = 0 (get_point_from_x_unchecked(0, .) on the curves of G1 and G2, kept when on the curve, non-identity and killed by r: non-empty for the G1 groups of the four MNT engines, where the cofactor is one and b is a square; points with y = 0 have order 2 and are never in a group of odd prime order) as P0 / Q0 with an oracle relative to pairings of moved points: e(P0,Q0) != 1, e(kP0,lQ0) = e(P0,Q0)^(kl), e(P0,lQ0)^k = e(kP0,Q0)^l, additivity in both slots against a*G1 / b*G2, multi_pairing[(P0,Q0),(P',Q0)] = e(P0+P',Q0) and [(P',Q'),(P0,Q0),(P',Q0)] = g^(a'b') e(P0+P',Q0), output^r = 1. Relation spellings/* reaches the entry points outside the trait bounds: G1Prepared/G2Prepared::from(&affine) and ::from(&projective), prepare_g1/prepare_g2, prepared values read back from their canonical serialization (compressed / uncompressed, Validate::Yes), is_zero() of prepared values, lists passed as slices or iterators of references (multi_pairing(&[affine]), multi_pairing(iter of &projective), multi_miller_loop(&[projective], iter of &affine)), PairingOutput::generator(), Valid::check of outputs, the &mut operand forms and the owned Sum of PairingOutput. Oracle: g = e(G1,G2) != 1 and every output equals g^(sum a_i*b_i mod r) computed by plain square-and-multiply in the target field, outputs agree across entry points and input forms, the multi-pairing equals the product of the individual pairings, output^r = 1, PairingOutput +,-,neg,zero,double equal field multiplication / inversion. A case is non-trivial when both points are non-identity and (a,b) is outside {0,1}^2, or the list has length >= 2 (group laws: both exponents outside {0,1}); distinct = distinct decoded choice sequences.",
         assumptions: &[
             "scalar multiplication and addition in G1/G2 (C03/C04), target-field multiplication/squaring (C02) and num-bigint are trusted as oracle ingredients",
             "e(G1,G2) as returned by the engine under test is the reference value g (a defect that rescales every output of an engine by the same bilinear, non-degenerate map of order r is invisible by design: it is still a pairing)",
